@@ -213,7 +213,69 @@ def reflists(prog, run, rule):
         run.ob(rule, "pyoma2.setup.multi", "reference lists", None, "no store of self.ref_ind / call of pre_multisetup found")
 
 
-WHICH = {"merge": merge, "flatten": flatten, "pre": pre, "ssi_ms": ssi_ms, "reflists": reflists}
+def split_current(prog, run, rule):
+    """every method of the PreGER setup class that re-applies the reference / roving split hands the split the dataset list that is
+    CURRENT when the method returns: the list it stores into `self.datasets` (the same local, or the attribute read AFTER the store) -
+    a split of the list of the previous step leaves `data` one preprocessing step behind `datasets`, `fs` and the sample counts"""
+    n = 0
+    for cq in ("setup.multi.MultiSetup_PreGER",):
+        try:
+            ci = prog.cls(cq)
+        except Exception:
+            continue
+        f = rel(prog.mods[ci.mod].path)
+        pre = prog.func("functions.gen.pre_multisetup")
+        first = astq.params_of(pre.node)[0][0]
+        for m in ci.methods.values():
+            recs = astq.forwarded_args(prog, m, pre.qual, depth=2)
+            if not recs or m.node.name.startswith("_split"):
+                continue
+            # the value this method stores into self.datasets (if it stores one)
+            stores = [st for st in ast.walk(m.node) if isinstance(st, ast.Assign) and any(isinstance(t, ast.Attribute) and astq.src(t) == "self.datasets" for t in st.targets)]
+            for rec in recs:
+                n += 1
+                c = rec["outer_call"]
+                a = rec["args"].get(first)
+                role = "the split is applied to the dataset list this method leaves in `self.datasets`"
+                if a is None:
+                    run.ob(rule, m.qual, role, None, "dataset argument of the split could not be expressed in the method's scope", file=f, node=c)
+                    continue
+                txt = astq.src(a, 80)
+                if txt == "self.datasets":
+                    st_, v = astq.attr_store_status(m, c, "self.datasets")
+                    ok = st_ != "after"
+                    why = f"`pre_multisetup(self.datasets, ..)`" + (" is evaluated BEFORE `self.datasets` receives the new list: the data handed to the algorithms is one step behind" if not ok else
+                                                                   (" after the store" if st_ == "before" else " (this method does not replace the list)"))
+                    run.ob(rule, m.qual, role, ok, why, witness=f"self.datasets:{st_}", file=f, node=c)
+                    continue
+                hold = rec["holder"]
+                if hold is not m and getattr(hold, "node", None) is not None:
+                    # split and store sit together in a helper: judged there, on the helper's own names
+                    hstores = [st for st in ast.walk(hold.node) if isinstance(st, ast.Assign) and any(isinstance(t, ast.Attribute) and astq.src(t) == "self.datasets" for t in st.targets)]
+                    raw = (rec["call"].args[:1] or [kw.value for kw in rec["call"].keywords if kw.arg == first] or [None])[0]
+                    if hstores and isinstance(raw, ast.Name) and isinstance(hstores[-1].value, ast.Name):
+                        same = raw.id == hstores[-1].value.id
+                        run.ob(rule, m.qual, role, same, f"helper {hold.node.name}: split of `{raw.id}`, stored list `{hstores[-1].value.id}`", witness=f"{raw.id}|{hstores[-1].value.id}", file=f, node=c)
+                        continue
+                if not stores:
+                    # a method that splits a list without storing one (initialisation from its argument, rollback from the initial copy)
+                    run.ob(rule, m.qual, role, True if isinstance(a, (ast.Name, ast.Attribute, ast.Call)) else None, f"`pre_multisetup({txt}, ..)`; the method stores no new dataset list", witness=txt, file=f, node=c)
+                    continue
+                sv = astq.expr_at(m, stores[-1], stores[-1].value)
+                same = astq.dump(sv) == astq.dump(a) or (isinstance(stores[-1].value, ast.Name) and isinstance(a, ast.Name) and stores[-1].value.id == a.id)
+                # the raw (unexpanded) spelling decides when both are the same local name
+                raw = None
+                for k_ in (rec["call"].args[:1] or [kw.value for kw in rec["call"].keywords if kw.arg == first]):
+                    raw = k_
+                if not same and isinstance(raw, ast.Name) and isinstance(stores[-1].value, ast.Name) and raw.id == stores[-1].value.id and rec["holder"] is m:
+                    same = True
+                run.ob(rule, m.qual, role, same if same else (False if isinstance(a, ast.Name) or txt.startswith("self.") else None),
+                       f"split of `{txt}`, stored list `{astq.src(stores[-1].value, 60)}`", witness=f"{txt}|{astq.src(stores[-1].value, 40)}", file=f, node=c)
+    if not n:
+        run.ob(rule, "pyoma2.setup.multi", "split after preprocessing", None, "no call of pre_multisetup found in MultiSetup_PreGER")
+
+
+WHICH = {"merge": merge, "flatten": flatten, "pre": pre, "ssi_ms": ssi_ms, "reflists": reflists, "split_current": split_current}
 
 
 def order_obligations(prog, run, rule, which):
